@@ -907,6 +907,10 @@ class Gen:
         if self.r.random() < 0.3:
             self.entries(g.metadata_props)
         in_names = [self.fresh("in") for _ in range(self.r.randrange(3))]
+        outer_names = [x for sc in scopes for x in sc]
+        if depth and outer_names and self.r.random() < 0.25:
+            # shadowing: a subgraph input named like a value of an enclosing scope (innermost wins)
+            in_names.append(self.r.choice(outer_names))
         for nm in in_names:
             self.vi(g.input.add(), nm)
         init_names = [self.fresh("w") for _ in range(self.r.randrange(3))]
